@@ -35,6 +35,7 @@ pub fn growth_case(spec: &FileSpec, acc: &mut Acc) -> Result<u64, String> {
     let model = Model::new(entries);
     let n = model.len();
     let bound = 2 * (spec.cfg.index_levels as u64 + 2);
+    let byte_bound = bound * (8 + crate::files::max_stored_block(&bytes));
     let src = CountSrc::new(&bytes);
     let stats = src.stats.clone();
     let fresh = Reader::new(src).map_err(|e| e.to_string())?.into_cursor().map_err(|e| e.to_string())?;
@@ -75,6 +76,9 @@ pub fn growth_case(spec: &FileSpec, acc: &mut Acc) -> Result<u64, String> {
             let loads = stats.abs_seeks.get();
             acc.transitions += 1;
             max_loads = max_loads.max(loads);
+            if stats.read_bytes.get() > byte_bound {
+                return Err(format!("n = {n}: {} from position {:?} read {} bytes > {byte_bound}", op.brief(), p, stats.read_bytes.get()));
+            }
             if loads > bound {
                 return Err(format!(
                     "n = {n}: {} from position {:?} loaded {loads} blocks, bound 2*(levels+2) = {bound}",
@@ -161,7 +165,7 @@ pub fn run(tier: Tier) -> i32 {
     rep.acc = acc;
     let closed_all = rep.acc.counters.get("files_not_closed").copied().unwrap_or(0) == 0;
     rep.set("exhaustive", json!(closed_all));
-    rep.set("rule", json!("E1: the C03 closure BFS re-run over a counting source: for EVERY reachable cursor state x EVERY operation of the alphabet the number of block loads (= absolute seeks, each followed by one length-prefixed block read) during that one public call must be <= 2*(index_levels+2); E2 growth family: n = 1..60000 entries x index_levels 0..=3 x two entry shapes, fresh and positioned cursors (sampled positions incl. after relative walks) x {first,last,next,prev,GE/LE/EQ on present and absent probes} plus 200-step walks, each single step within the bound; Reader::new must read only the last 22 bytes. maxima.growth_max_loads_L*_n* show the measured maximum does not grow with n"));
+    rep.set("rule", json!("E1: the C03 closure BFS re-run over a counting source: for EVERY reachable cursor state x EVERY operation of the alphabet the number of block loads (= absolute seeks, each followed by one length-prefixed block read) during that one public call must be <= 2*(index_levels+2), and the bytes read must not exceed what that many blocks of the largest stored size account for; E2 growth family: n = 1..60000 entries x index_levels 0..=3 x two entry shapes, fresh and positioned cursors (sampled positions incl. after relative walks) x {first,last,next,prev,GE/LE/EQ on present and absent probes} plus 200-step walks, each single step within the bound; Reader::new must read only the last 22 bytes. maxima.growth_max_loads_L*_n* show the measured maximum does not grow with n"));
     rep.set("bound", json!({"closure_files": files.iter().map(|f| f.0.clone()).collect::<Vec<_>>(), "growth_sizes": ns}));
     rep.finish()
 }
